@@ -40,14 +40,14 @@ CLAIMS = {
             "Theorems C04 / C04_nil / C04_clauses (Props/C04.lean): whenever validation accepts a Config, Spec.prohibitions (the documented prohibitions written field by field, with hand-written Fetch name "
             "tables proved to have the same members as the regenerated Go tables) is empty: at least one origin; `*` never with credentials or a PNA mode; insecure/psl patterns only under the tolerate flags; "
             "no invalid/forbidden method, no invalid/forbidden/prohibited header name, `*` response header never with credentials; max-age in [-1,86400]; status 0 or 200-299; at most one PNA mode; an error comes with a nil middleware. "
-            "Tie: validate suite (accept/reject), names suite (exhaustive over 256 bytes and all table entries), lex suite (ParsePattern verdicts).",
+            "C04_caseMap_sites / C04_caseMap_consts_ascii / C04_valid_ascii: every call of a case-mapping function (strings.ToLower/ToUpper behind util.ByteLowercase/ByteUppercase, methods.Normalize, methods.IsForbidden), regenerated with the conditions that dominate it, sits behind the validity test or has an ASCII constant argument, and valid names are ASCII - the precondition under which the model's byte maps equal the Unicode-aware library functions. Tie: validate suite (accept/reject), names suite (exhaustive over 256 bytes and all table entries), lex suite (ParsePattern verdicts), histories (Reconfigure's verdict must not depend on the configuration in force).",
             '6/C04', "Relative to the oracles ext (idna for xn-- labels, publicsuffix, IPv6 netip) and to Pat.parsePattern as the syntactic verdict on one pattern (the grammar itself is C13's business)."),
     'C05': ('proof', 'Lean 4 theorem: fold-with-accumulator validators = per-element specification (list equality, hence multiset equality) + differential tie',
             "Theorems C05 / C05_accept / C05_reject / C05_value_verbatim / C05_bounds / C19_count (Props/C05.lean): for every Config and every oracle behaviour the leaves of the returned error are exactly "
             "Spec.prohibitions - same errors, same multiplicity, same order - so nothing is missed (no early exit) and nothing spurious is reported; a Config without violations is accepted; each error carries the "
             "value as supplied (forbidden methods are untouched by normalisation) and the documented bounds (regenerated constants proved equal to 204/200/299/5/86400/-1). Tie: validate suite compares the exact error tree "
-            "(shape from errors.Join, type, Value, Reason/Type/bounds), checks non-nil exported pointer types and the `cors: ` message prefix on the Go side.",
-            '6/C05', 'Message texts are produced by fmt.Sprintf in Go and are checked by the harness only (prefix), not modelled.'),
+            "(shape from errors.Join, type, Value, Reason/Type/bounds), checks non-nil exported pointer types and the `cors: ` message prefix on the Go side. C05_message_prefix: every return of every Error() method of cfgerrors starts from a constant (literal or fmt.Sprintf format, regenerated) that begins with `cors: `.",
+            '6/C05', 'Message texts beyond the prefix are not modelled (no property constrains them).'),
     'C06': ('proof', 'Lean 4 theorem (validating Config() succeeds and yields the same handler function; stored-entries semantics of the tree, render = inverse of parse, round trips of the set folds and max-age) + relational round-trip suite computed on the Go side + history correspondence',
             "Theorem C06_roundtrip (Props/C06.lean): for every accepted configuration (no exception: Proofs/RenderIdem.lean shows that parsing the rendering of an accepted pattern gives the same pattern, also for an IPv4 address written in brackets, which is rendered without them), newInternalConfig accepts newConfig icfg, the resulting internal configuration "
             "gives Serve.serve icfg' = Serve.serve icfg (the same function of debug flag, request and pre-existing headers), and Config() of it agrees with Config() of the original on every field other than Origins (whose elements are among the configured patterns and build an equivalent tree). "
@@ -121,14 +121,14 @@ CLAIMS = {
     'C16': ('proof', 'Lean 4 theorem (value-provenance invariant of the preflight buffer) + differential tie',
             "Theorems C16 / C16_fail / C16_distinct / C16_accepted (Props/C16.lean): debug off, any preflight: status is the single regenerated failure status or the configured "
             "success status (distinct for accepted configurations); with the failure status nothing but Vary changes; every header value the middleware sets is `*`, `true`, "
-            "`*,authorization`, the configured max-age or a slice of the request (first Origin, first ACRM, the ACRH lines) - never the configured allow-lists. Tie: serve suite.",
+            "the configured max-age, `*,authorization` (only when the configuration allows all request headers, lists Authorization and is anonymous: the documented case) or a slice of the request (first Origin, first ACRM, the ACRH lines) - never the configured allow-lists. Tie: serve / servex suites and histories (debug off is a state of the documented state machine), with a judge that evaluates the same predicate on the implementation's response.",
             '6/C16', 'The failure status is a regenerated fact (403 today); a per-reason status breaks the fact-dependent model and the tie.'),
     'C17': ('proof', 'Lean 4 theorems: totality of the model (structural recursion accepted by the kernel) + the preconditions of every manual index/slice of the Go code + recover-instrumented differential tie',
             "PARTIAL. Every function of the model is total by structural recursion. Theorems C17_value_nonempty / C17_insert_key_nonempty (the host value of every accepted pattern, and the key handed to the tree loop after stripping `*`, is non-empty; "
             "a subdomain pattern is `*.` + non-empty base: Tree.Insert's s[0] and hostOnly's Value[2:]), C17_indexAfter_lt (IndexAfter's precondition n < Size is maintained by Check), C17_cutAtComma_in_range (str[i+1:]), C17_bracket_end (str[1:end]), "
-            "C17_status_range (uint8 status arithmetic cannot wrap for accepted configurations), C17_parsePort_hoist; C17_ix_parseScheme / _parsePort / _fastParseHost / _lastByte / _splitAtCommonSuffix / _trimOWS / _cutAtComma / _parse / _treeContains / _originAllowed (the request path Origin header -> Parse -> Tree.Contains on the parallel slices of the nodes) / _check (all of headers.Check with IndexAfter: start <= Size is a proved loop invariant) / _first / _insert / _asciiSet (the [8]uint32 bit set computes list membership for every byte): Model/Ix.lean transliterates the functions that index and slice strings by hand statement by statement with int counters and Go's checked s[i], s[lo:hi] (out of range or out of loop fuel = error), and for every input the index-level program returns ok of exactly what the list-level model returns (refinement, Proofs/IxRefine.lean); C17_ix_bodies pins the text of those functions (fingerprints regenerated on every run); C17_sites: the complete list of index and slice expressions of the non-test code (60 sites), each with the conditions that syntactically dominate it (left operands of the &&/|| chains it is a right operand of, enclosing if/for/range/case conditions, negations of earlier leave-guards; regenerated from the source on every run), equals the audited list, "
+            "C17_status_range (uint8 status arithmetic cannot wrap for accepted configurations), C17_parsePort_hoist; C17_ix_parseScheme / _parsePort / _fastParseHost / _lastByte / _splitAtCommonSuffix / _trimOWS / _cutAtComma / _parse / _treeContains / _originAllowed (the request path Origin header -> Parse -> Tree.Contains on the parallel slices of the nodes) / _check (all of headers.Check with IndexAfter: start <= Size is a proved loop invariant) / _first / _insert / _asciiSet (the [8]uint32 bit set computes list membership for every byte): Model/Ix.lean transliterates the functions that index and slice strings by hand statement by statement with int counters and Go's checked s[i], s[lo:hi] (out of range or out of loop fuel = error), and for every input the index-level program returns ok of exactly what the list-level model returns (refinement, Proofs/IxRefine.lean); C17_ix_treeInsert / _treeBuild / _add / _upsertEdge / _deleteSameSign / _treeElems / C17_node_lengths (Model/IxTree.lean, Proofs/IxTreeRefine.lean: the configuration-time half of the radix tree on nodes that keep Go's five parallel fields; inserting any list of parsed patterns from the zero Tree never panics, gives the slice representation of the list-level tree C01 is proved about, and keeps len(edges) == len(children), len(schemes) == len(ports) at every node), C17_ix_parseHostPattern / _hostOnly / _acma (Proofs/IxPatternRefine.lean); C17_ix_bodies pins the text of the 27 transliterated functions (fingerprints regenerated on every run); C17_sites: the complete list of index and slice expressions of the non-test code (60 sites), each with the conditions that syntactically dominate it (left operands of the &&/|| chains it is a right operand of, enclosing if/for/range/case conditions, negations of earlier leave-guards; regenerated from the source on every run), equals the audited list, "
             "each entry annotated with the guard or precondition theorem that keeps it in range, so a new or changed index expression and a dropped, weakened or reordered guard break an obligation even when no generated input reaches them (Props/C17.lean). Tie: every call of every suite (lex, tree, acrh, validate, serve, errors, history) runs under recover; a panic is a mismatch with its input as replay.",
-            '6/C17', 'PARTIAL: panics inside library calls and the Go runtime (nil maps from a broken ResponseWriter, stack exhaustion) are outside the model; for 45 of the 60 sites the index-level refinement theorems prove in-range-ness; for the other sites (the configuration-time half of the tree: Insert, add, upsertEdge, elems, deleteSameSign; hostOnly, parseHostPattern, newConfig) that the audited guard set suffices is argued per site in a comment, with the data-dependent preconditions proved (P1-P7).'),
+            '6/C17', 'PARTIAL: panics inside library calls and the Go runtime (nil maps from a broken ResponseWriter, stack exhaustion) are outside the model; for all 60 sites the index-level refinement theorems prove in-range-ness for every input; in them slices.BinarySearch is modelled as lower bound + equality (what it returns on the sorted slices the tree keeps; sortedness is the proved tree invariant), append+slices.Sort as sorted insertion, a write through &n.children[i] as a functional update of position i.'),
     'C18': ('other', 'Lean 4 cost-model theorem + regenerated loop/install facts + allocation measurement (testing.AllocsPerRun) over size families',
             "PARTIAL. Theorem C18_bound (Props/C18.lean): in the cost semantics of the model (allocating header primitives; scanners return sub-views and are cost-free by construction) every request costs at most 4, "
             "independently of every length and element count. C18_no_alloc_in_loops / C18_loop_callees / C18_preflight_installs: regenerated facts (decide): no append/make/new/string concatenation/conversion/literal inside any `for` loop "
